@@ -62,6 +62,8 @@ def consts(tier, kind):
 
 
 def cfg(c, dev=(), emit=False, invs="", props=""):
+    c = dict(c)
+    c.setdefault("DevChoices", "{}")
     return R.cfg_text(c, dev=dev, emit=emit, invs=invs, props=props)
 
 
@@ -69,7 +71,7 @@ GHOST_INVS = ("SleeperLearnsNewest", "DeliveredOnce", "NoNeedlessLoss")
 
 
 def job(name, c, dev=(), emit=False, invs="", props="", workers=2, heap="4g", expect_violation=False):
-    """emit runs leave the ghost variables out (4 x fewer transitions to print) and skip the invariants that need them"""
+    """emit runs leave the ghost variables out (fewer transitions to print) and skip the invariants that need them"""
     c = dict(c)
     if emit:
         c["Ghost"] = "FALSE"
@@ -77,6 +79,28 @@ def job(name, c, dev=(), emit=False, invs="", props="", workers=2, heap="4g", ex
         props = " ".join(i for i in props.split() if i not in GHOST_INVS)
     return dict(module=MODULE, name=name, cfg=cfg(c, dev, emit, invs, props), workers=workers, heap=heap,
                 expect_violation=expect_violation)
+
+
+# ---- combined sensitivity run: one TLC run explores every deviation set; Catch / CatchStep print what catches it
+SENS_CHOICES = [[]] + [FULLTABLE] + [[d] for d in ALL_DEVS if d != "DevSeenBlocksResync"] + [FULLTABLE + ["DevSeenBlocksResync"]]
+
+
+def sens_job():
+    c = dict(Peers=S(["s"]), Origins=S(["o1"]), MaxSeq=3, WdOrigins=S(["o1"]), WdSeqs="{2}", InfoOrigins=S(["o1"]),
+             Cmds=S(["c1"]), Bound=1, FrameCap=1, MaxLive=2, MaxSleeps=2, MaxExpire=0, MaxHolderWake=0, Ghost="TRUE",
+             DevChoices="{%s}" % ", ".join(S(x) for x in SENS_CHOICES))
+    text = "CONSTANTS %s Dev = {} Emit = FALSE\nINIT Init\nNEXT Next\nVIEW view\nCONSTRAINT Catch\nACTION_CONSTRAINT CatchStep\n" % (
+        " ".join("%s = %s" % kv for kv in c.items()))
+    return dict(module=MODULE, name="sensitivity", cfg=text, workers=2, heap="4g")
+
+
+def caught(res):
+    """{frozenset(deviation set): set of invariant / step-property names that caught it}"""
+    out = {}
+    for tag, o in res.prints:
+        if tag == "CAUGHT":
+            out.setdefault(frozenset(o["dev"]), set()).update(o["by"])
+    return out
 
 
 # ------------------------------------------------------------------ relations and covers
@@ -130,8 +154,28 @@ def outcomes(edges):
 
 
 # ------------------------------------------------------------------ classification
-def index(edges):
-    return R.index_relation(edges, base_act)
+def red(world, s):
+    """the part of a spec state a binding depends on: the type-level world has no agents, the receiver world no holder"""
+    if world == "type":
+        return {k: s[k] for k in ("mode", "draining", "q", "msg")}
+    if world == "receiver":
+        return {k: v for k, v in s.items() if k != "hold"}
+    return s
+
+
+def red_act(world, a):
+    drop = ("dev",) if world == "holder" else ("dev", "hres")
+    a = {k: v for k, v in a.items() if k not in drop}
+    if world == "type" and a.get("act") == "Live":
+        a.pop("res", None)            # what a connected peer did with the frame
+    return a
+
+
+def index(edges, world="holder"):
+    ix = {}
+    for e in edges:
+        ix.setdefault((vf.canon(red(world, e["s"])), vf.canon(base_act(e["a"]))), []).append(e)
+    return ix
 
 
 def lookup(mm, doc, built_ix, proj, same_obs):
@@ -156,3 +200,177 @@ def slim(a):
     a = dict(a)
     a.pop("dev", None)
     return json.dumps(a, sort_keys=True)[:300]
+
+
+# ------------------------------------------------------------------ projections (the same as the Go harnesses compute)
+def _norm_q(q):
+    return {"adv": q["adv"], "wd": q["wd"], "info": q["info"], "cmd": q["cmd"]}
+
+
+def _obs(r):
+    return {"tab": dict(r["tab"]), "info": dict(r["info"]), "seen": sorted("%s/%d" % (x["o"], x["n"]) for x in r["seen"]),
+            "niseen": len(r["iseen"]), "ncseen": len(r["cseen"])}
+
+
+def proj_type(t, a=None):
+    """(a) harness/sleep: queues in order + undelivered message parts"""
+    return {"q": {p: _norm_q(q) for p, q in t["q"].items()}, "msg": {p: list(m) for p, m in t["msg"].items()}}
+
+
+def proj_holder(t, a=None):
+    p = sorted(t["mode"])[0]
+    q = t["q"][p]
+    queued = 1 if (q["adv"] or q["wd"] or q["info"] or q["cmd"] != "none") else 0
+    return {"mode": t["mode"][p], "queued": queued, "hold": _obs(t["hold"]), "rcv": _obs(t["rcv"][p])}
+
+
+def proj_receiver(t, a=None):
+    p = sorted(t["mode"])[0]
+    q = t["q"][p]
+    full = {"q": [len(q["adv"]), len(q["wd"]), len(q["info"])], "has": bool(q["adv"] or q["wd"] or q["info"]),
+            "rcv": _obs(t["rcv"][p])}
+    if a is not None and (a["act"] == "Deliver" or (a["act"] == "ReceiverApply" and t["msg"][p])):
+        return {"q": full["q"]}     # in the middle of a QUEUED_STATE frame only the queue is comparable
+    return full
+
+
+def _sorted_frames(fs):
+    return sorted(({"k": f["k"], "o": f["o"], "n": f["n"]} for f in fs), key=lambda f: (f["k"], f["o"], f["n"]))
+
+
+def obs_type(a, p="s"):
+    return {"res": a["res"]} if a["act"] == "Deliver" else {}
+
+
+def obs_holder(a, p="s"):
+    sent = []
+    if a["act"] == "Live" and a["out"][p] == "sent":
+        sent = [a["f"]]
+    if a["act"] == "PeerPolls":
+        sent = a["sent"]
+    return {"sent": _sorted_frames(sent), "queued_state_frames": 1 if a["act"] == "Deliver" else 0}
+
+
+def obs_receiver(a, p="s"):
+    if a["act"] == "Live" and a["out"][p] == "sent":
+        return {"fwd": [a["f"]] if a["res"][p] != "dup" else []}
+    if a["act"] == "Deliver":
+        return {"res": a["res"], "frame": list(a["frame"]) if a["res"] == "sent" else []}
+    if a["act"] == "ReceiverApply":
+        return {"fwd": bool(a["fwd"])}
+    return {}
+
+
+WORLD = {"type": (proj_type, obs_type), "holder": (proj_holder, obs_holder), "receiver": (proj_receiver, obs_receiver)}
+
+
+def _sub(want, got):
+    """every key of want has the same value in got"""
+    return all(vf.canon(got.get(k)) == vf.canon(v) for k, v in want.items())
+
+
+def explain(mm, doc, other_ix, world):
+    """A replay difference (record mm of a harness) on relation `doc`: look for an edge of the OTHER relation from the
+    same pre-state with the same base action whose projected post-state and observation are what the real code did.
+    Returns (s, a, devs): devs = union of the `dev` labels of the matching edges (or of the replayed edge when the other
+    relation is the ideal one), None when nothing matches."""
+    proj, obsf = WORLD[world]
+    p = doc["paths"][mm["path"]]
+    si = mm["step"]
+    if si < 0:
+        return None, None, None
+    s = doc["states"][p["init"] if si == 0 else p["steps"][si - 1]["t"]]
+    a = p["steps"][si]["a"]
+    real = mm["real"]
+    robs = mm.get("obs") or {}
+    found = None
+    for e in other_ix.get((vf.canon(red(world, s)), vf.canon(base_act(a))), []):
+        want = proj(e["t"], e["a"])
+        if world == "receiver" and set(want) == {"q"}:
+            ok = vf.canon(real.get("q")) == vf.canon(want["q"])
+        else:
+            ok = vf.canon(real) == vf.canon(want)
+        if ok and _sub(obsf(e["a"]), robs):
+            found = set(found or ()) | set(e["a"].get("dev", []))
+    return s, a, (sorted(found) if found is not None else None)
+
+
+def first_dev(doc, other_ix, world):
+    """per path of `doc`: (index of the first step that is not an edge of the other relation - as far as the binding
+    `world` can tell -, dev labels of the other relation's edges there, the action)"""
+    out = {}
+    for pi, p in enumerate(doc["paths"]):
+        s = doc["states"][p["init"]]
+        for si, st in enumerate(p["steps"]):
+            t = doc["states"][st["t"]]
+            cands = other_ix.get((vf.canon(red(world, s)), vf.canon(base_act(st["a"]))), [])
+            a0 = vf.canon(red_act(world, st["a"]))
+            rt = vf.canon(red(world, t))
+            same = [e for e in cands if vf.canon(red(world, e["t"])) == rt and vf.canon(red_act(world, e["a"])) == a0]
+            if not same:
+                devs = set(st["a"].get("dev", []))
+                for e in cands:
+                    devs |= set(e["a"].get("dev", []))
+                out[pi] = (si, sorted(devs), st["a"])
+                break
+            s = t
+    return out
+
+
+def sample(doc, first, per_class, extra, rng, cut=True, keep=None):
+    """choose paths of an ideal cover: per deviation class (labels at the first departure) `per_class` paths, plus
+    `extra` paths without any departure; paths are cut after their first departure; keep(devs, action) filters classes"""
+    by = {}
+    for pi in range(len(doc["paths"])):
+        if pi in first and keep is not None and not keep(first[pi][1], first[pi][2]):
+            continue
+        cls = ",".join(first[pi][1]) if pi in first else ""
+        by.setdefault(cls, []).append(pi)
+    chosen = []
+    for cls, ps in sorted(by.items()):
+        ps = sorted(ps, key=lambda i: (first[i][0] if i in first else len(doc["paths"][i]["steps"])))
+        take = ps[:max(1, per_class // 2)] + rng.sample(ps, min(len(ps), per_class))
+        if cls == "":
+            take = rng.sample(ps, min(len(ps), extra))
+        chosen += sorted(set(take))
+    out = dict(doc)
+    out["paths"] = []
+    exp = {}
+    for pi in chosen:
+        p = doc["paths"][pi]
+        steps = p["steps"]
+        if cut and pi in first:
+            steps = steps[:first[pi][0] + 1]
+        if pi in first:
+            exp[len(out["paths"])] = first[pi]
+        out["paths"].append({"init": p["init"], "steps": steps})
+    return out, exp
+
+
+def pick_cover(doc, n, rng):
+    """quick tier on cmesh: n paths of a cover, first those that add a new (action, labels) class, then random ones"""
+    def classes(p):
+        out = set()
+        for st in p["steps"]:
+            a = st["a"]
+            out.add(vf.canon({k: (v if k in ("act", "out", "res", "hres", "dev", "more", "fwd", "queued") else
+                                  (v.get("k") if isinstance(v, dict) else None)) for k, v in a.items() if k != "p"}))
+        return out
+    if len(doc["paths"]) <= n:
+        return doc
+    left = list(range(len(doc["paths"])))
+    rng.shuffle(left)
+    seen, chosen = set(), []
+    for pi in left:
+        c = classes(doc["paths"][pi])
+        if not c <= seen and len(chosen) < n:
+            seen |= c
+            chosen.append(pi)
+    for pi in left:
+        if len(chosen) >= n:
+            break
+        if pi not in chosen:
+            chosen.append(pi)
+    out = dict(doc)
+    out["paths"] = [doc["paths"][i] for i in sorted(chosen)]
+    return out
